@@ -238,10 +238,11 @@ inline void check_canaries()
 
 // Traits: propagate_on_container_{copy_assignment,move_assignment,swap}, is_always_equal,
 // select_on_container_copy_construction returns a different arena (+100)
-template <bool CC, bool MC, bool SW, bool AE, bool SOCCC>
+// EXPL: the converting (rebinding) constructor of the allocator is explicit - conforming, only direct-initialisation works
+template <bool CC, bool MC, bool SW, bool AE, bool SOCCC, bool EXPL = false>
 struct Tr
 {
-    static constexpr bool cc = CC, mc = MC, sw = SW, ae = AE, soccc = SOCCC;
+    static constexpr bool cc = CC, mc = MC, sw = SW, ae = AE, soccc = SOCCC, expl = EXPL;
 };
 
 template <bool Stateless>
@@ -274,8 +275,13 @@ struct Ledger : ArenaHolder<Traits::ae>
 
     Ledger() = default;
     explicit Ledger(int arena) noexcept { this->set_arena(arena); }
-    template <class U>
+    template <class U, bool E = Traits::expl, std::enable_if_t<!E, int> = 0>
     Ledger(const Ledger<U, Traits>& o) noexcept
+    {
+        this->set_arena(o.arena());
+    }
+    template <class U, bool E = Traits::expl, std::enable_if_t<E, int> = 0>
+    explicit Ledger(const Ledger<U, Traits>& o) noexcept
     {
         this->set_arena(o.arena());
     }
